@@ -28,17 +28,17 @@ type langCfg struct {
 }
 
 type pipeCfg struct {
-	Inputs       []pipeInput
-	Langs        []langCfg
-	Types        bool
-	Builders     bool
-	Converters   bool
-	APIReference bool
-	Debug        bool
-	SchemaPasses []string // files
-	VeneerDirs   []string
-	OutDir       string // may contain %l
-	Params       map[string]string
+	Inputs        []pipeInput
+	Langs         []langCfg
+	Types         bool
+	Builders      bool
+	Converters    bool
+	APIReference  bool
+	Debug         bool
+	SchemaPasses  []string // files
+	VeneerDirs    []string
+	OutDir        string // may contain %l
+	Params        map[string]string
 	RepoTemplates string
 }
 
@@ -182,10 +182,10 @@ func (g genFiles) writeTo(dir string) error {
 }
 
 type runResult struct {
-	Files  genFiles
-	Err    error
-	Panic  any
-	Stack  string
+	Files genFiles
+	Err   error
+	Panic any
+	Stack string
 }
 
 // runPipelineYAML writes the YAML to dir/name and runs it. Output paths are made relative to the
